@@ -274,7 +274,7 @@ func TestC10Paths(t *testing.T) {
 			for _, r := range [][2]int{{1, 3}, {2, 6}} {
 				paths := []string{"success", "silence", "cancel-before", "cancel-during"}
 				if v == "sack" {
-					paths = append(paths, "closed", "no-synack", "no-permit", "no-options", "trunc-ts", "plain-ack", "plain-ack-empty", "plain-ack-ts")
+					paths = append(paths, "closed", "no-synack", "no-permit", "no-options", "trunc-ts", "plain-ack", "plain-ack-empty", "plain-ack-ts", "plain-ack-half", "plain-ack-odd")
 				}
 				for _, path := range paths {
 					sc := c10Base(v, r[0], r[1])
@@ -295,7 +295,7 @@ func TestC10Paths(t *testing.T) {
 						sc.Sack.Permit, sc.Sack.Bare = false, true
 					case "trunc-ts":
 						sc.Sack.TruncTS = true
-					case "plain-ack", "plain-ack-empty", "plain-ack-ts":
+					case "plain-ack", "plain-ack-empty", "plain-ack-ts", "plain-ack-half", "plain-ack-odd":
 						sc.Script = FlowScript{DestDist: r[1], Default: HopSpec{DelayUs: 4000, DestKind: path}}
 					}
 					if !yield(&pathCase{Sc: sc, Path: path}) {
